@@ -17,3 +17,4 @@ CHECK = {'pkgs': ['core/parsigdb'],
  'budget_s': {'quick': 300, 'thorough': 1500}}
 CHECK["race_tests"] = {"core/parsigdb": "TestVerifRaceC07"}
 CHECK["assumptions"] = SCHEDX_ASSUME
+CHECK["claim"] += " Fifth session, part A oracle: an entry of a never-expiring duty may only vanish (cap eviction) if everything in it was the storing share's own."
